@@ -173,13 +173,25 @@ def gen_program(rng, lib_paths=(), std=True):
     return text[:MAX_TEXT]
 
 
-def gen_simple(rng, lib_paths=()):
-    """Small programs that are well-typed by construction (so that they build and hover/definition have something to say)."""
+def gen_simple(rng, lib_paths=(), exports=None):
+    """Small programs that are well-typed by construction (so that they build and hover/definition have something to say).
+    exports: import path -> [(selector suffix, "int"|"str"|"other")] known to be exported by that workspace library; used so that
+    documents really depend on the shapes of what they import (also through a library that imports another library)."""
     L = []
     names = []
     tuples = []
-    if lib_paths and rng.chance(60):
-        L.append('let lib = import "%s";' % rng.choice(list(lib_paths)))
+    if lib_paths and rng.chance(70):
+        known = [p for p in lib_paths if exports and exports.get(p)]
+        path = rng.choice(known) if known and rng.chance(80) else rng.choice(list(lib_paths))
+        L.append('let lib = import "%s";' % path)
+        for k in range(rng.between(1, 3) if exports and exports.get(path) else 0):
+            suffix, typ = rng.choice(exports[path])
+            if typ == "int":
+                L.append("let used%d = lib%s + %d;" % (k, suffix, rng.below(9)))
+            elif typ == "str":
+                L.append('let used%d = lib%s + "-%d";' % (k, suffix, k))
+            else:
+                L.append("let used%d = lib%s;" % (k, suffix))
     if rng.chance(40):
         L.append('let lists = import "std/lists.ucg";')
         L.append("let n_items = lists.len([1, 2, 3]);")
@@ -226,7 +238,7 @@ def mutate(rng, text, n=None):
         if not toks:
             break
         i = rng.below(len(toks))
-        op = rng.weighted([("delete", 4), ("dup", 2), ("swap", 2), ("replace", 3), ("insert", 2), ("truncate", 1), ("split", 1)])
+        op = rng.weighted([("delete", 4), ("dup", 2), ("swap", 2), ("replace", 3), ("insert", 2), ("truncate", 1), ("split", 1), ("drop_prefix", 1)])
         if op == "delete":
             del toks[i]
         elif op == "dup":
@@ -240,6 +252,8 @@ def mutate(rng, text, n=None):
             toks.insert(i, rng.choice(MUT_POOL))
         elif op == "truncate":
             toks = toks[:i]
+        elif op == "drop_prefix":
+            toks = toks[i:]
         elif op == "split" and len(toks[i]) > 1:
             k = rng.between(1, len(toks[i]) - 1)
             toks[i:i + 1] = [toks[i][:k], rng.choice([" ", "\n", ""]), toks[i][k:]]
@@ -254,13 +268,13 @@ def random_utf8(rng):
     return "".join(rng.choice(alpha) for _ in range(n))[:MAX_TEXT]
 
 
-def gen_text(rng, lib_paths=(), std=True):
+def gen_text(rng, lib_paths=(), std=True, exports=None):
     """-> (class, text)"""
     k = rng.weighted([("generated", 7), ("simple", 4), ("corpus", 3), ("mutated_generated", 3), ("mutated_corpus", 2), ("random", 2), ("empty", 1)])
     if k == "generated":
         return k, gen_program(rng, lib_paths, std)
     if k == "simple":
-        return k, gen_simple(rng, lib_paths)
+        return k, gen_simple(rng, lib_paths, exports)
     if k == "corpus":
         c = corpus()
         return k, rng.choice(c) if c else gen_program(rng, lib_paths, std)
